@@ -2807,6 +2807,10 @@ class Mesh:
             print("redistributing", region.name, flush=True)
             region.distributePointsNonorthogonal(nonorthogonal_settings)
 
+        # The points have moved, so any R and Z arrays calculated before are out of date
+        # (geometry() only calculates them when they do not exist yet)
+        self.calculateRZ()
+
     def calculateRZ(self):
         """
         Create arrays with R and Z values of all points in the grid
